@@ -21,3 +21,8 @@ func VerifTakeStream(n int, s *StreamOfStates) []*State { return takeStream(n, s
 // VerifIsSuspension reports whether the head cell of a non-nil stream is an immature (suspended) cell,
 // without forcing it.
 func VerifIsSuspension(s *StreamOfStates) bool { return s != nil && s.state == nil }
+
+// VerifHead returns the state of the head cell of a non-nil stream without forcing its tail, and
+// VerifHasTail reports whether the head cell has a (possibly not yet computed) tail.
+func VerifHead(s *StreamOfStates) *State  { return s.state }
+func VerifHasTail(s *StreamOfStates) bool { return s.proc != nil }
